@@ -590,9 +590,105 @@ def _b_filter(names):
     return len(names) == 1 or names == ('X-A', 'X-A')
 
 
+# --------------------------------------------------------------------------- through the real stores
+STORE_BODIES = [b'', b'a\r\n', b'\r\n.\r\na', b'\x00\xff\r\x00' * 40, b'.\r\n' + b'\xe9' * 300 + b'\nlast']
+
+
+def check_stores(names, kinds, eol, sep, block, expected, body, res):
+    """the envelope as the disk (in-memory FS, aio requests may complete short), redis, cloud and shelve-backed stores
+    keep it: written, read back by get(), flattened -- same header block and body as the parsed original"""
+    import gevent
+    from engine.core import explore, Chooser
+    from engine.vloop import World
+    from checks.c15 import make_backend
+    from worlds.queue_world import UUID_MODULES
+    data = block + EOLS[eol] + body
+    env0 = _new_env()
+    env0.parse(data)
+    want = env0.flatten()
+    out = []
+    rep = {'fam': 'stores', 'names': list(names), 'kinds': list(kinds), 'eol': eol, 'sep': sep, 'body': b2s(body)}
+    for backend in ('disk', 'redis', 'cloud', 'shelf'):
+        bad = []
+
+        def run(ch, backend=backend):
+            got = {}
+            with World(ch, uuid_modules=UUID_MODULES, max_steps=200000) as w:
+                st, fs = make_backend(backend, w)
+                if backend == 'disk':
+                    fs.short_chooser = ch
+
+                def body_():
+                    try:
+                        env = _new_env()
+                        env.parse(data)
+                        i = st.write(env, 1000.0)
+                        e2, attempts = st.get(i)
+                        got['flat'] = e2.flatten()
+                        got['meta'] = (e2.sender, list(e2.recipients))
+                    except BaseException as e:
+                        got['exc'] = '%s: %s' % (type(e).__name__, str(e)[:100])
+                gevent.spawn(body_)
+                w.run_until_quiescent()
+            if 'exc' in got:
+                bad.append(('store-raised', 'store %s: write/get of the envelope parsed from %r raised %s' % (backend, data, got['exc'])))
+            elif got.get('flat') != want:
+                bad.append(('stored-envelope-differs', 'store %s: the envelope parsed from %r came back from get() flattening to %r + %r, '
+                            'the original flattens to %r + %r [choices %r]' % (backend, data, got.get('flat', (None, None))[0], got.get('flat', (None, None))[1],
+                                                                              want[0], want[1], list(ch.choices))))
+            elif got.get('meta') != (env0.sender, list(env0.recipients)):
+                bad.append(('sender-or-recipients-changed', 'store %s: sender/recipients came back as %r' % (backend, got.get('meta'))))
+            return repr(got.get('flat'))[:80]
+        st_ = explore(run, d=1 if backend == 'disk' else 0, dd=None, merge=False, max_exec=400)
+        res.evaluations += st_.executions
+        res.count('store_round_trips', st_.executions)
+        for kind, msg in bad[:1]:
+            out.append(({'claim': 'pickle', 'stage': 'store:' + backend, 'kind': kind, 'body_class': body_class(body)}, msg, rep))
+    return out
+
+
+# --------------------------------------------------------------------------- the relay's 7-bit decision
+def check_relay_7bit(text, encname, pre8, post8, res):
+    """The place where the 7-bit conversion is decided: a real SmtpRelayClient (STARTTLS) in front of a scripted next hop
+    that offers 8BITMIME before and/or after the handshake.  Without 8BITMIME after the handshake an 8-bit body must be
+    converted (encoder given: the hop receives pure ASCII) or refused -- never passed on as it is."""
+    from engine.core import Chooser
+    from worlds.relay_world import SmtpRelayWorld, classify
+    body = text.encode('utf-8')
+    cfg = dict(lmtp=False, n=1, tls='starttls', tls_required=True, peer_kw={'eightbit': pre8, 'eightbit_after_tls': post8},
+               body=b'Subject: t\r\nContent-Type: text/plain; charset=utf-8\r\n\r\n' + body, script={})
+    if ENCODERS[encname] is not None:
+        cfg['binary_encoder'] = ENCODERS[encname]
+    w = SmtpRelayWorld(Chooser(), cfg).run()
+    rec = w.results[0]
+    per, whole = classify(rec['outcome'], rec['env'])
+    received = [t['data'] for p in w.peers for t in p.transactions if t.get('data') is not None]
+    res.evaluations += 1
+    res.count('relay_7bit_cases')
+    res.outcome(('relay7', whole, len(received), pre8, post8, encname))
+    rep = {'fam': 'relay7', 'text': text, 'enc': encname, 'pre8': pre8, 'post8': post8}
+    desc = 'next hop offers 8BITMIME before TLS: %r, after TLS: %r; encoder %s; body %r: attempt -> %s, hop received %r' % (
+        pre8, post8, encname, body, whole, received)
+    has8 = any(c > 127 for c in body)
+    out = []
+    if not has8:
+        return out
+    if not post8:
+        for d in received:
+            if any(c > 127 for c in d):
+                out.append(({'claim': '7bit', 'stage': 'relay', 'kind': '8bit-data-passed-on', 'encoder': encname, 'offered_before_tls': pre8}, desc, rep))
+        if ENCODERS[encname] is None and (received or not all(v == 'perm' for v in per.values())):
+            if not any(c > 127 for d in received for c in d):
+                out.append(({'claim': '7bit', 'stage': 'relay', 'kind': 'not-refused-without-encoder', 'offered_before_tls': pre8}, desc, rep))
+    else:
+        if not received or received[0].split(b'\r\n\r\n', 1)[-1] not in (body, body + b'\r\n'):
+            out.append(({'claim': '7bit', 'stage': 'relay', 'kind': '8bit-capable-hop-did-not-get-the-original', 'encoder': encname}, desc, rep))
+    return out
+
+
 def configs(tier, seed):
     fams = [[{'fam': f, 'part': k, 'of': n} for k in range(n)]
-            for f, n in (('S', NS), ('B', NB), ('N', NN), ('W', NW), ('WL', NWL), ('E', NE))]
+            for f, n in (('S', NS), ('B', NB), ('N', NN), ('W', NW), ('WL', NWL), ('E', NE), ('ST', 8), ('R7', 1))]
     # interleaved so that the first samples the runner keeps come from every family
     return [c for row in itertools.zip_longest(*fams) for c in row if c is not None]
 
@@ -634,6 +730,26 @@ def run_config(cfg, tier, seed):
         _run_strong(cfg, t, res, block_variants(_b_filter), t['s_body_max'] + 1, t['b_body_max'])
     elif fam == 'N':
         _run_strong(cfg, t, res, block_variants(_b_filter, ('nospace',)), 0, t['n_body_max'])
+    elif fam == 'ST':
+        for vi, (names, kinds, eol, sep) in enumerate(block_variants(_b_filter)):
+            if vi % cfg['of'] != cfg['part'] or (tier == 'quick' and vi % 5):
+                continue
+            block, expected = build_block(names, kinds, eol, sep)
+            for body in STORE_BODIES:
+                res.interesting(('stores', names, kinds, eol, body[:8]))
+                res.count('store_cases')
+                for sig, text, rep in check_stores(names, kinds, eol, sep, block, expected, body, res):
+                    res.violation(sig, text, rep)
+        res.sample({'family': 'ST', 'stores': ['disk (short aio completions)', 'redis', 'cloud', 'shelve'], 'bodies': len(STORE_BODIES)})
+    elif fam == 'R7':
+        for text in (u'plain ascii\r\n', u'caf\xe9\r\n', u'\xe9' * 40 + u'\r\nsecond \xe9\r\n'):
+            for encname in ('base64', 'quoted-printable', 'none'):
+                for pre8 in (True, False):
+                    for post8 in (True, False):
+                        res.interesting(('relay7', text, encname, pre8, post8))
+                        for sig, msg, rep in check_relay_7bit(text, encname, pre8, post8, res):
+                            res.violation(sig, msg, rep)
+        res.sample({'family': 'R7', 'what': 'SmtpRelayClient 7-bit decision against a scripted hop, 8BITMIME before/after STARTTLS'})
     elif fam in ('W', 'WL'):
         gen = (byte_strings(WEAK_ALPHABET, 0, t['weak_max']) if fam == 'W'
                else byte_strings(WEAK_LONG_TOKENS, 0, t['weak_long_max']))
@@ -693,6 +809,20 @@ def vacuity(counters, tier):
 
 def replay(rep):
     fam = rep['fam']
+    if fam == 'stores':
+        res = Result()
+        names, kinds = tuple(rep['names']), tuple(rep['kinds'])
+        block, expected = build_block(names, kinds, rep['eol'], rep['sep'])
+        vs = check_stores(names, kinds, rep['eol'], rep['sep'], block, expected, s2b(rep['body']), res)
+        if vs:
+            return True, vs[0][1]
+        return False, 'every store returns the envelope unchanged'
+    if fam == 'relay7':
+        res = Result()
+        vs = check_relay_7bit(rep['text'], rep['enc'], rep['pre8'], rep['post8'], res)
+        if vs:
+            return True, vs[0][1]
+        return False, 'the relay converts or refuses 8-bit data when the hop does not take it'
     if fam == 'strong':
         names, kinds = tuple(rep['names']), tuple(rep['kinds'])
         block, expected = build_block(names, kinds, rep['eol'], rep['sep'])
